@@ -26,7 +26,7 @@ CHECKS = {
         note='R-mode reading of rate > threshold; Inv_load constructor compared with the real load on every validity pattern at each run.',
         ref='5/C04'),
     'C05': dict(
-        text='find_offsets executed on every connected incidence pattern of up to 3 series x 3 levels (quick; 4x4 thorough) with symbolic real crossing values; numpy.linalg.solve is exact elimination on the concrete rational normal matrix.  Obligations (LRA validity): per-series residual sums against the level means are zero (stationarity of a convex quadratic = global minimum), any other stationary offset vector differs by a constant, every series sharing a level gets exactly one offset; for 2 series additionally the sum-of-squares inequality as an NRA query.  Table level: `rise` / `recession` on symsql (with and without a reference level) on the C13 patterned records: residual sums of the stored offsets and crossings against the stored master curve are zero.',
+        text='find_offsets executed on every connected incidence pattern of up to 3 series x 3 levels (quick; 4x4 thorough) with symbolic real crossing values; numpy.linalg.solve is exact elimination on the concrete rational normal matrix.  Obligations (LRA validity): per-series residual sums against the level means are zero (stationarity of a convex quadratic = global minimum), any other stationary offset vector differs by a constant, every series sharing a level gets exactly one offset; for 2 series additionally the sum-of-squares inequality as an NRA query; the patterns up to 3 series are run once more after an alignment of the same shape with shifted interval ids in the same process (state carried between calls; replayed in a new interpreter).  Table level: `rise` / `recession` on symsql (with and without a reference level) on the C13 patterned records: residual sums of the stored offsets and crossings against the stored master curve are zero.',
         note='R-mode; overlap graph assumed connected (the caller guarantee proved in C08); datasets large enough to reach a size-dependent code path (none exists on the unchanged tree) are outside.',
         ref='5/C05'),
     'C08': dict(
@@ -42,11 +42,11 @@ CHECKS = {
         note='F: only the reference block is bit-precise (data are exact rationals); off-grid is exercised on half-way points only; a multiple no interval crosses (KeyError) is outside; R over the reals.',
         ref='5/C09'),
     'C14': dict(
-        text='Spline / SplineSpecificYield executed with FITPACK replaced by its contract (uninterpreted interpolating S and antiderivative F, splint clipping to the knot range): for symbolic strictly increasing knots (4) and concrete knot sets (4, thorough 5 and 6), symbolic knot values and symbolic limits a,b,c in every ordering relative to each other and to both ends: value at every knot, constancy outside, integrate(a,b)=G(b)-G(a) for the antiderivative G of the clamped function, additivity and antisymmetry -- each an SMT obligation per path.',
+        text='Spline / SplineSpecificYield executed with FITPACK replaced by its contract (uninterpreted interpolating S and antiderivative F, splint clipping to the knot range): for symbolic strictly increasing knots (4) and concrete knot sets (4, thorough 5 and 6), symbolic knot values and symbolic limits a,b,c in every ordering relative to each other and to both ends: value at every knot, constancy outside, integrate(a,b)=G(b)-G(a) for the antiderivative G of the clamped function, additivity and antisymmetry -- each an SMT obligation per path; levels and limits given as Python integers or integer arrays (symbolic Int) give the same values.',
         note='The FITPACK facts assumed are checked on the installed scipy at every run; FITPACK accuracy itself is outside; witness replays compare the real code with quadrature of the real function.',
         ref='5/C14'),
     'C15': dict(
-        text='SplineTransmissivity executed with quad replaced by an uninterpreted integral whose integrand is evaluated at one symbolic point (one path per linear piece), exp/log uninterpreted with exp(log t)=t: proved for symbolic knots (2-3 quick, 4 thorough), conductivities and level: T_min at and below the lowest knot, otherwise exactly one integral from the lowest knot to the level, integrand = exp(linear interpolant of log K) > 0, result T_min + integral; array and scalar calls produce identical terms; no exception up to the highest knot.',
+        text='SplineTransmissivity executed with quad replaced by an uninterpreted integral whose integrand is evaluated at one symbolic point (one path per linear piece), exp/log uninterpreted with exp(log t)=t: proved for symbolic knots (2-3 quick, 4 thorough), conductivities and level: T_min at and below the lowest knot, otherwise exactly one integral from the lowest knot to the level, integrand = exp(linear interpolant of log K) > 0, result T_min + integral; array and scalar calls produce identical terms, also for an array that is neither ascending nor descending and for integer arrays; no exception up to the highest knot.',
         note='Monotonicity/continuity follow from the proved facts plus additivity of integrals; QUADPACK accuracy is only sampled at witness replays (closed form, 1e-6).',
         ref='5/C15'),
     'C10': dict(
@@ -54,7 +54,7 @@ CHECKS = {
         note='R-mode; UTC; foreign keys enforced as load requests; at least two level rows and two rain instants in span; the closing instant beyond the record end has no required label.',
         ref='5/C10'),
     'C11': dict(
-        text='Time zones: the real generate_timestamped_rows with the real pytz code (localize/normalize/fromutc, bisect over the transition table) runs on a shim datetime whose wall clock is a symbolic integer; for every path (position of the local time among the zone transitions) the stored epoch E is proved to satisfy offset_in_force_at(E) = L - E with the offset read from the zone table; non-existent local times are recognised (proved to have no valid instant) and excluded.  8 zones + 2 seed-chosen, every second of 2012-2024 quick; all common zones over the whole table thorough; a two-row variant (second row 1..7200 s later, windows around transitions) proves that a row is converted independently of the other rows.  Refusals: the C10 harness with a planted irregular rain step, a missing or mistyped (off-grid) ET row, or a second load must raise, the last leaving the dataset unchanged.',
+        text='Time zones: the real generate_timestamped_rows with the real pytz code (localize/normalize/fromutc, bisect over the transition table) runs on a shim datetime whose wall clock is a symbolic integer; for every path (position of the local time among the zone transitions) the stored epoch E is proved to satisfy offset_in_force_at(E) = L - E with the offset read from the zone table; non-existent local times are recognised (proved to have no valid instant) and excluded.  8 zones + 2 seed-chosen, every second of 2012-2024 quick; all common zones over the whole table thorough; the first 10 (40) zones once more after the same text was converted for another zone in the same process; a two-row variant (second row 1..7200 s later, windows around transitions) proves that a row is converted independently of the other rows.  Refusals: the C10 harness with a planted irregular rain step, a missing or mistyped (off-grid) ET row, or a second load must raise, the last leaving the dataset unchanged.',
         note='strptime is C code: replaced by a shim accepting the ISO format only; irregular rain must be visible among >= 3 rain instants inside the level span.',
         ref='5/C11'),
     'C17': dict(
@@ -62,7 +62,7 @@ CHECKS = {
         note='FITPACK contract as C14; yaml.dump records the object; text rendering belongs to C19.',
         ref='5/C17'),
     'C18': dict(
-        text='compute_recession_curve on a symbolic grid with symbolic ET and curvature: one integral per cell with the right limits, integrand at a symbolic probe point proved equal to Sy/(-ET - curvature*T), denominator negative, cumulative structure and mean.  simulate_recession / dump_simulated_recession on a symsql dataset with every ET cell symbolic: the ET handed to the curve is proved to be the average over all steps inside the recession intervals, curvature and mean conversions, rows highest-to-lowest in mm with measured (days) and simulated columns; both output forms; witness replays on the real CLI.',
+        text='compute_recession_curve on a symbolic grid with symbolic ET and curvature: one integral per cell with the right limits, integrand at a symbolic probe point proved equal to Sy/(-ET - curvature*T), denominator negative, cumulative structure and mean.  simulate_recession / dump_simulated_recession on a symsql dataset with every ET cell symbolic: the ET handed to the curve is proved to be the average over all steps inside the recession intervals of the master curve (also on a record with an interstorm interval that is not assembled into the curve), curvature and mean conversions, rows highest-to-lowest in mm with measured (days) and simulated columns; both output forms; witness replays on the real CLI.',
         note='quad uninterpreted; reversal/refinement invariance and the zero-curvature identity follow from the proved per-cell structure by additivity/linearity of integrals (not re-proved); conductivity positive (C15).',
         ref='5/C18'),
     'C06': dict(
@@ -74,7 +74,7 @@ CHECKS = {
         note='R-mode; four concrete level patterns; brentq contract = root strictly inside with the chord equation as a lazy fact; single-interval levels are dropped by the code (C08 finding) -- rows present are checked.',
         ref='5/C13'),
     'C16': dict(
-        text='Transmissivity: PeatclsmTransmissivity with every parameter and the level symbolic (power function uninterpreted): value term equals Ksmacz0 pow(zeta_max - w/10, 1-alpha)/(100(alpha-1)), ValueError iff w/10 > zeta_max, array = scalar.  Specific yield: the real _construct_spline/get_Sy_soil/campbell_1d_az with symbolic sd, theta_s, b (normal cdf and pow uninterpreted), psi_s concrete (-0.024 quick; six values thorough): all 201 tabulated values compared term by term with a transcription of the R reference (200- or 201-layer sum accepted), order-1 spline linear in between and constant beyond; a second object built in the same process with the same soil parameters and another symbolic sd must be right too (the first level that is not the profile is reported with a model and replayed).',
+        text='Transmissivity: PeatclsmTransmissivity with every parameter and the level symbolic (power function uninterpreted): value term equals Ksmacz0 pow(zeta_max - w/10, 1-alpha)/(100(alpha-1)), ValueError iff w/10 > zeta_max, array = scalar, the array handed in is left unchanged and gives the same values when evaluated again.  Specific yield: the real _construct_spline/get_Sy_soil/campbell_1d_az with symbolic sd, theta_s, b (normal cdf and pow uninterpreted), psi_s concrete (-0.024 quick; six values thorough): all 201 tabulated values compared term by term with a transcription of the R reference (200- or 201-layer sum accepted), order-1 spline linear in between and constant beyond; a second object built in the same process with the same soil parameters and another symbolic sd must be right too (the first level that is not the profile is reported with a model and replayed).',
         note='Rscript is absent: "reproduces the R reference" is checked against a transcription of the R file, numerically at the published parameters; the symbolic table costs ~1-2 min of z3 term construction per psi_s value (80802 Campbell cells).',
         ref='5/C16'),
     'C19': dict(
